@@ -76,7 +76,7 @@ def main():
         ],
         "checks": checks,
         "not_applicable": na,
-        "notes": "Exit codes: 0 held, 1 violation (VIOLATION line), 2 inconclusive (build/tool failure). Known genuine defects are listed in KNOWN_FINDINGS.jsonl.",
+        "notes": "Exit codes: 0 held, 1 violation (VIOLATION line), 2 inconclusive (build/tool failure). Known genuine defects are listed in KNOWN_FINDINGS.jsonl and known/<ID>.jsonl (known/C05-causes.tsv for the node-printer causes of C05); entries with status fixed suppress nothing. Seeded breaking changes confirmed against the checks are under seeded/ (DESIGN.md §A.6).",
     }
     with open(os.path.join(ROOT, "MANIFEST.json"), "w") as f:
         json.dump(manifest, f, indent=1)
